@@ -292,6 +292,10 @@ type refEntry struct {
 	saved bool
 }
 
+// refProgramID is the generating program's id, the high 32 bits of the PAR 1.0
+// version field (outside the control hash); a conformant reader ignores it.
+var refProgramID uint32
+
 func refVolume(entries []refEntry, volNum uint64, payload []byte) []byte {
 	var list []byte
 	var setIn []byte
@@ -323,13 +327,14 @@ func refVolume(entries []refEntry, volNum uint64, payload []byte) []byte {
 	rest = append(rest, payload...)
 	ch := md5.Sum(rest)
 	out := []byte{'P', 'A', 'R', 0, 0, 0, 0, 0}
-	out = append(out, put64p(0x00010000)...)
+	out = append(out, put64p(0x00010000|uint64(refProgramID)<<32)...)
 	out = append(out, ch[:]...)
 	return append(out, rest...)
 }
 
 func VerifHarness_C10_reader() {
 	useReedSolomonStub()
+	refProgramID = rt.U32("programID")
 	// three entries; the non-saved one is at position `pos`
 	pos := rt.Choice("nonSavedAt", 3)
 	entries := []refEntry{}
